@@ -120,7 +120,10 @@ UNPROVED = (
     "'/Index.html' vs '/Index.html/index.html', replayed on the implementation as KF-C03-3). (c2) = (c1)+(b) under the "
     "union of the hypotheses. NOT proved, explored by the oracle on every run: (b),(c2) on URLs with capital letters "
     "(that normalize_url's steps other than the index test commute with lower-casing), "
-    "platform_aware=True (D53: KF-C03-2), URLs with a redirect hint (D29: KF-C03-1), the "
+    "platform_aware=True (D53: KF-C03-2), URLs with a redirect hint (D29: KF-C03-1), the letter case of NON-ASCII hosts "
+    "(the model lower-cases ASCII only, with one function in all three schemes; that the real functions' mappings absorb one "
+    "another there is the per-run law HostCase.absorb / HostCase.merge over every character on which str.lower / casefold / "
+    "upper().lower() / NFKC differ, plus the 'hostcase' stream), the "
     "CPython half of the string-level bridging (that urlsplit gives the printed components back and parses u.lower() into the "
     "lower-cased components: evaluated per case by c03_bridge / c03_lower; an "
     "unknown scheme with an empty authority, where it used to fail - KF-C03-5 - is fixed: FX-C02-f918741), equality of "
